@@ -32,7 +32,7 @@ vars == <<l, pc, sc, A, B, C, R, oA, oB, oC, oR, stR>>
 
 NoSc == [n |-> 0, ctor |-> "zeros", ml |-> 0, mu |-> 0, pat |-> "zero", op |-> "read", i |-> 0, j |-> 0, s |-> 0,
          bkind |-> "F", bml |-> 0, bmu |-> 0, bpat |-> "zero",
-         op2 |-> "none", i2 |-> 0, j2 |-> 0, s2 |-> 0, ckind |-> "F", cml |-> 0, cmu |-> 0, cpat |-> "zero"]
+         op2 |-> "none", i2 |-> 0, j2 |-> 0, s2 |-> 0, ckind |-> "F", cml |-> 0, cmu |-> 0, cpat |-> "zero", pf |-> 0]
 NoSt == [kind |-> "F", ml |-> 0, mu |-> 0]
 
 Init == TLCSet(1, ndJsonDeserialize(IOEnv.TRACE)) /\ l = 1 /\ pc = "ctorA" /\ sc = NoSc /\ A = NoMat /\ B = NoMat /\ C = NoMat /\ R = NoMat
@@ -62,6 +62,7 @@ WellFormedSc(s) ==
   /\ s.n \in 1..8 /\ s.ctor \in Ctors /\ s.pat \in Pats /\ s.bpat \in Pats /\ s.op \in Ops
   /\ s.bkind \in {"I", "F", "B"} /\ s.ckind \in {"I", "F", "B"} /\ s.op2 \in Ops2
   /\ (HasOp2(s) => s.op \in BinOps \cup ScalarOps)
+  /\ (HasPf(s) => CtorStorage(s.ctor, s.n, s.ml, s.mu).kind # "I")
 
 Step ==
   /\ l <= NLines
@@ -76,7 +77,19 @@ Step ==
                                                    got |-> r.entries, want |-> ExpectA0(s)]))
                  /\ CheckDrift(r, m.panic, m.mat, ok)
                  /\ sc' = s /\ A' = m.mat /\ oA' = Obs(r, s.n, m.mat)
-                 /\ pc' = "fillA" /\ UNCHANGED <<B, C, R, oB, oC, oR, stR>>
+                 /\ pc' = (IF HasPf(s) THEN "prefillA" ELSE "fillA") /\ UNCHANGED <<B, C, R, oB, oC, oR, stR>>
+        \* Matrix::fill(pf) on the whole buffer: not specified by C17 (no clause); Level-B comparison only.  What the
+        \* code shows afterwards is the "before" of the write clause of the next step.
+        \/ /\ pc = "prefillA"
+           /\ LET m == StepPrefillA(sc, A)
+              IN /\ CheckDrift(r, m.panic, m.mat, TRUE)
+                 /\ A' = m.mat /\ oA' = Obs(r, sc.n, m.mat)
+                 /\ pc' = "fillA" /\ UNCHANGED <<sc, B, C, R, oB, oC, oR, stR>>
+        \/ /\ pc = "prefillB"
+           /\ LET m == StepPrefillB(sc, B)
+              IN /\ CheckDrift(r, m.panic, m.mat, TRUE)
+                 /\ B' = m.mat /\ oB' = Obs(r, sc.n, m.mat)
+                 /\ pc' = "fillB" /\ UNCHANGED <<sc, A, C, R, oA, oC, oR, stR>>
         \/ /\ pc = "fillA"
            /\ LET m == StepFillA(sc, A)
                   ok == ClauseFillA(sc, oA, r.panic, r.entries)
@@ -92,7 +105,7 @@ Step ==
                                                    panic |-> r.panic, got |-> r.entries]))
                  /\ CheckDrift(r, m.panic, m.mat, ok)
                  /\ B' = m.mat /\ oB' = Obs(r, sc.n, m.mat)
-                 /\ pc' = "fillB" /\ UNCHANGED <<sc, A, C, R, oA, oC, oR, stR>>
+                 /\ pc' = (IF HasPfB(sc) THEN "prefillB" ELSE "fillB") /\ UNCHANGED <<sc, A, C, R, oA, oC, oR, stR>>
         \/ /\ pc = "fillB"
            /\ LET m == StepFillB(sc, B)
                   ok == ClauseFillB(sc, oB, r.panic, r.entries)
